@@ -1065,6 +1065,39 @@ pub fn run_c15(cfg: &Cfg) -> (Part, Value, bool) {
             }
         }
     }
+    // long strings: an offending / aliasing character at the start, at every storage-chunk boundary
+    // (16 hex digits, 64 binary digits, 8-bit and 2-nibble sub-boundaries) +-1, in the middle, at the end
+    let offenders = ['+', '-', ' ', '_', 'g', 'G', 'x', 'é', '٠', '１', '\u{131}', '\u{0}'];
+    for &l in &[15usize, 16, 17, 31, 32, 33, 47, 48, 49, 64, 65] {
+        let mut pos: std::collections::BTreeSet<usize> = [0usize, 1, l / 2, l - 1].into_iter().collect();
+        for b in [2usize, 8, 16, 32, 48] {
+            if l > b {
+                pos.extend([l - b - 1, l - b, (l - b + 1).min(l - 1)]);
+            }
+        }
+        for &c in &offenders {
+            for &p in &pos {
+                let mut hs: Vec<char> = (0..l).map(|i| hexchars[(i * 7 + 3) % 22]).collect();
+                hs[p] = c;
+                hx.push(hs.iter().collect());
+            }
+        }
+    }
+    for &l in &[63usize, 64, 65, 127, 128, 129, 191, 192, 193, 256, 257] {
+        let mut pos: std::collections::BTreeSet<usize> = [0usize, 1, l / 2, l - 1].into_iter().collect();
+        for b in [8usize, 64, 128, 192] {
+            if l > b {
+                pos.extend([l - b - 1, l - b, (l - b + 1).min(l - 1)]);
+            }
+        }
+        for &c in &offenders {
+            for &p in &pos {
+                let mut bs: Vec<char> = (0..l).map(|i| if (i * 5 + 1) % 3 == 0 { '1' } else { '0' }).collect();
+                bs[p] = c;
+                bin.push(bs.iter().collect());
+            }
+        }
+    }
     let nbin = bin.len();
     let nhex = hx.len();
     for &k in ALL_KINDS {
